@@ -710,12 +710,25 @@ def evaluate_payload_template(input, context, template):
             elif arg == "false":
                 arglist[i] = False
             else:
+                """
+                Only decimal numbers are numeric literals. Python's int() and
+                float() accept more (nan, inf, 1_000, +1, non ASCII digits),
+                and NaN or Infinity are not JSON values at all.
+                """
+                if not re.fullmatch(r"-?[0-9]+(\.[0-9]+)?([eE][+-]?[0-9]+)?", arg):
+                    raise IntrinsicFailure(
+                        "Intrinsic Function {}, Invalid argument {}.".format(func, arg)
+                    )
                 try:
                     arglist[i] = int(arg)
                 except ValueError:
                     try:
                         arglist[i] = float(arg)
                     except ValueError:
+                        raise IntrinsicFailure(
+                            "Intrinsic Function {}, Invalid argument {}.".format(func, arg)
+                        )
+                    if arglist[i] in (float("inf"), float("-inf")):  # e.g. 1e400
                         raise IntrinsicFailure(
                             "Intrinsic Function {}, Invalid argument {}.".format(func, arg)
                         )
